@@ -521,7 +521,7 @@ func listedAssertInvariant(c *Ctx, fn *ssa.Function, ta *ssa.TypeAssert) (string
 			return "PathNode tree shape: the only map stores are n[PathEnd]=value and n[segment]=PathNode (segments cannot equal PathEnd: NUL is not a valid BSON key byte)", true
 		}
 		return "a non-PathNode value may be stored under a segment key of a PathNode", false
-	case (name == "bsonkit.Put$1" || name == "bsonkit.Unset$1") && at == "bson.D":
+	case fnPkgPath(fn) == pkgBsonkit && at == "bson.D" && fn.Parent() != nil && isPutRootSetter(c, fn):
 		// the root callback of put: put is entered with a bson.D and a non-end path, so set() receives the re-sliced document
 		put := c.lookupSSA(pkgBsonkit, "put")
 		if put == nil {
@@ -1298,4 +1298,62 @@ func zeroPredicateGuarded(fn *ssa.Function, bo *ssa.BinOp) bool {
 		}
 	}
 	return false
+}
+
+// isPutRootSetter: fn is a function literal used for nothing but the `set` callback (5th argument) of bsonkit.put -
+// written at the call, or returned by an unexported function whose every result goes there.
+func isPutRootSetter(c *Ctx, fn *ssa.Function) bool {
+	put := c.lookupSSA(pkgBsonkit, "put")
+	if put == nil || fn.Parent() == nil || len(put.Params) < 5 {
+		return false
+	}
+	toPut := func(v ssa.Value) bool {
+		refs := v.Referrers()
+		if refs == nil || len(*refs) == 0 {
+			return false
+		}
+		for _, ref := range *refs {
+			call, ok := ref.(*ssa.Call)
+			if !ok || staticFn(&call.Call) != put || len(call.Call.Args) < 5 || call.Call.Args[4] != v {
+				return false
+			}
+		}
+		return true
+	}
+	n := 0
+	good := true
+	allInstrs(fn.Parent(), func(in ssa.Instruction) {
+		mc, ok := in.(*ssa.MakeClosure)
+		if !ok || mc.Fn != ssa.Value(fn) {
+			return
+		}
+		n++
+		if toPut(mc) {
+			return
+		}
+		// returned by the enclosing function: all its calls feed put
+		refs := mc.Referrers()
+		if refs == nil {
+			good = false
+			return
+		}
+		for _, ref := range *refs {
+			if _, isRet := ref.(*ssa.Return); !isRet {
+				good = false
+				return
+			}
+		}
+		callers, complete := allCallers(fn.Parent())
+		if !complete || len(callers) == 0 {
+			good = false
+			return
+		}
+		for _, ci := range callers {
+			v, ok := ci.(*ssa.Call)
+			if !ok || !toPut(v) {
+				good = false
+			}
+		}
+	})
+	return n > 0 && good
 }
